@@ -193,6 +193,8 @@ def loop_regional_maximum_structure(it, env):
     R0, big, X = env.get("result"), env.get("big_mask"), env.get("image")
     if R0 is None or big is None or X is None:
         raise G.Unsupported("structure loop: result / big_mask / image not bound")
+    if big[0] == "SetSlice" and big[3] == G.MaskRaw:
+        big = G.SetSlice(big[1], big[2], MaskE)          # storing an integer mask into the boolean frame casts it
     if not (big[0] == "SetSlice" and big[1] == STRUCTURE_LOOP_PLACEMENT and G.is_const(big[2]) and G.is_masklike(big[3])):
         raise G.Unsupported("structure loop: big_mask is not the mask centred in a constant frame")
     M = big[3]
